@@ -17,6 +17,15 @@ RestoreReq(sub) == <<35, 17, 16, sub, 108, 111, 97, 100>>        \* "load"
 \* LSS identify remote slave: six address frames 0x46..0x4B, identify non-configured: 0x4C
 IdentifyFrames(ids) == [k \in 1..6 |-> [id |-> 2021, d |-> <<69 + k>> \o ids[k] \o <<0, 0, 0>>, rtr |-> FALSE]]
 IdentifyNonConfigured == [id |-> 2021, d |-> <<76, 0, 0, 0, 0, 0, 0, 0>>, rtr |-> FALSE]
+\* import_from_node(n, network): a temporary SDO client uploads 0x1021:00 ("Store EDS") as text and
+\* imports it with node id n; any failure (abort, silence, unreadable text) gives None.  Named deviation
+\* UnsubscribesAll: the clean-up is network.unsubscribe(0x580 + n) without a callback, which removes
+\* every handler of that id - also one that was subscribed before the call (a node added earlier is
+\* deaf to SDO responses afterwards); the specification follows the code and records the deviation.
+ImportRequest == <<64, 33, 16, 0, 0, 0, 0, 0>>
+ImportSucceeds(mode) == mode = "ok"
+ImportSubscribersLeft == 0
+ImportNode == 9          \* the harness imports from node 9; $NODEID-relative values resolve with that id
 \* array view of a remote node (SdoArray): the device's sub-index 0 decides; record view (SdoRecord):
 \* the dictionary decides, the "highest sub-index" entry 0 is not counted and not iterated
 ArrLen(n) == n
